@@ -22,12 +22,17 @@ Definition cache_names_ok (c : ccfg) (k : cache) : bool :=
   forallb (fun kc => forallb (fun o => no_slash (get_name o)) (cached k (ch_res kc))) (kids c).
 
 (* what holds of deletes and creates without the "targets the parent" escape *)
-Definition call_strict (puid : string) (cl : call) : bool :=
+Definition call_strict (c : ccfg) (k : cache) (parent : json) (cl : call) : bool :=
   match cl with
   | CApi q =>
       match q_verb q with
-      | VDelete => negb (String.eqb (q_uid_pre q) "") && String.eqb (q_prop q) "Background"
-      | VCreate => has_controller_ref_of (q_body q) puid || negb (metadata_is_obj (q_body q))
+      | VDelete => negb (String.eqb (q_uid_pre q) "") && String.eqb (q_prop q) "Background" &&
+                   match find_cached c k q with
+                   | Some o => String.eqb (q_uid_pre q) (get_uid o) &&
+                               (controlled_by o (get_uid parent) || is_orphan o)
+                   | None => false
+                   end
+      | VCreate => has_controller_ref_of (q_body q) (get_uid parent) || negb (metadata_is_obj (q_body q))
       | _ => true
       end
   | CHook _ _ => true
@@ -43,7 +48,7 @@ Section C02.
 
   Let puid := get_uid parent.
   Definition P (cl : call) : Prop :=
-    C02_call_ok c k parent cl = true /\ call_strict (get_uid parent) cl = true.
+    C02_call_ok c k parent cl = true /\ call_strict c k parent cl = true.
   Notation SP Post h p := (safeP sane_names (fun _ cl => P cl) Post h p).
   Notation TT := (fun _ _ => True).
 
@@ -202,7 +207,7 @@ Section C02.
     controlled_by o (get_uid parent) || is_orphan o = true -> P (CApi q).
   Proof.
     intros Hv Hf Hu Hne Hp Hc. unfold P, C02_call_ok, call_strict.
-    rewrite Hv, Hf, Hu, Hp, eqb_refl', Hc. split; [apply Bool.orb_true_r|].
+    rewrite Hv, Hf, Hu, Hp, !eqb_refl', Hc. split; [apply Bool.orb_true_r|].
     apply String.eqb_neq in Hne. rewrite Hne. reflexivity.
   Qed.
 
@@ -717,7 +722,7 @@ Qed.
 Theorem C02_strict : forall c k parent,
   k_parent k = Some parent -> cfg_wf c = true -> cache_wf c k = true ->
   get_uid parent <> "" -> ssa c = false -> cache_names_ok c k = true ->
-  safe sane_names (fun _ cl => call_strict (get_uid parent) cl = true) [] (sync c k).
+  safe sane_names (fun _ cl => call_strict c k parent cl = true) [] (sync c k).
 Proof.
   intros c k parent Hk Hcfg Hcache Huid Hssa Hnames. unfold sync. rewrite Hk.
   eapply safeP_safe. eapply safeP_conseq; [intros cl a H; exact H| |intros h r H; exact H|
@@ -739,13 +744,18 @@ Proof.
 Qed.
 
 (* ... and for the calls of a sync the precondition is never empty *)
-Lemma C02_delete_guarded_sync parent q :
-  call_strict (get_uid parent) (CApi q) = true -> q_verb q = VDelete ->
-  q_uid_pre q <> "" /\ q_prop q = "Background".
+Lemma C02_delete_guarded_sync c k parent q :
+  call_strict c k parent (CApi q) = true -> q_verb q = VDelete ->
+  q_uid_pre q <> "" /\ q_prop q = "Background" /\
+  exists o, find_cached c k q = Some o /\ q_uid_pre q = get_uid o /\
+            (controlled_by o (get_uid parent) || is_orphan o = true).
 Proof.
   unfold call_strict. intros H Hv. rewrite Hv in H.
-  apply Bool.andb_true_iff in H as [H1 H2].
-  apply Bool.negb_true_iff, String.eqb_neq in H1. apply String.eqb_eq in H2. auto.
+  apply Bool.andb_true_iff in H as [H H3]. apply Bool.andb_true_iff in H as [H1 H2].
+  apply Bool.negb_true_iff, String.eqb_neq in H1. apply String.eqb_eq in H2.
+  split; [exact H1|]. split; [exact H2|].
+  destruct (find_cached c k q) as [o|]; [|discriminate].
+  apply Bool.andb_true_iff in H3 as [H3 H4]. apply String.eqb_eq in H3. eauto.
 Qed.
 
 Lemma C02_create_owned c k parent q :
@@ -756,8 +766,8 @@ Proof.
   apply Bool.orb_true_iff in H as [H|H]; [now left|right]. now apply Bool.negb_true_iff.
 Qed.
 
-Lemma C02_create_owned_sync parent q :
-  call_strict (get_uid parent) (CApi q) = true -> q_verb q = VCreate ->
+Lemma C02_create_owned_sync c k parent q :
+  call_strict c k parent (CApi q) = true -> q_verb q = VCreate ->
   has_controller_ref_of (q_body q) (get_uid parent) = true \/ metadata_is_obj (q_body q) = false.
 Proof.
   unfold call_strict. intros H Hv. rewrite Hv in H.
